@@ -391,6 +391,27 @@ func extractWire(p *pkgs, out string) {
 		}
 		l.printf("]\n")
 	}
+	// statFromResponse: how the "code:message" header value is taken apart
+	{
+		pkc, fdc := p.funcDecl(mod+"/httpgrpc", "statFromResponse")
+		split := ""
+		if fdc != nil {
+			ast.Inspect(fdc, func(n ast.Node) bool {
+				as, ok := n.(*ast.AssignStmt)
+				if ok && split == "" && len(as.Lhs) == 1 && len(as.Rhs) == 1 {
+					if id, ok := as.Lhs[0].(*ast.Ident); ok && id.Name == "codeStrs" {
+						split = exprText(pkc.Fset, as.Rhs[0])
+					}
+				}
+				return true
+			})
+		}
+		if split == "" {
+			fail("httpgrpc/client.go", "statusHeaderSplit", "codeStrs := … not found in statFromResponse")
+		} else {
+			l.printf("def statusHeaderSplit : String := %s\n", leanStr(split))
+		}
+	}
 	// asMetadata hands every header value over whole: the functions it calls (sorted, distinct)
 	{
 		_, fd := p.funcDecl(mod+"/httpgrpc", "asMetadata")
